@@ -24,3 +24,6 @@ package car
 //@   ensures integrity [C02]: err == nil ==> hashok(blockcid(result0), blockdata(result0))
 //@   ensures same_values [C02]: err == nil ==> blockcid(result0) == ref(c) && blockdata(result0) == ref(data)
 //@   ensures eof_clean [C02]: err == io.EOF && old(cr.br) != nil ==> rerr == io.EOF
+
+//@ func NewCarReaderWithOptions
+//@   call[Pool.Get#0] assume pool_holds_only_bufio_readers: typeis(result, "*bufio.Reader")
